@@ -27,7 +27,7 @@ BOUNDS = ('victim = 1 op (thorough: 2 ops in sequence) out of 33; all numeric ar
 ASSUMPTIONS = ['only valid API calls are made (the op alphabet never violates a usage assertion)',
                'exceptions the program itself raises: UserErr (op "raise")']
 
-DOUBLE = 4      # extra attacker kind on top of Fault.*: cancel twice
+DOUBLE = 9      # extra attacker kind on top of Fault.*: cancel twice
 
 
 def signal_monitor(E, probe):
@@ -115,12 +115,12 @@ def fam_kernel(E, names, fault_kinds, nops=1, pmax=2, real=False, placements=Tru
             E.prove(log.has('v%d' % k, 'end'), 'op-completes-when-undisturbed', ('%s', name))
 
 
-ALLF = [Fault.NONE, Fault.CANCEL, DOUBLE, Fault.INTERRUPT, Fault.CLOSE]
+ALLF = [Fault.NONE, Fault.CANCEL, DOUBLE, Fault.INTERRUPT, Fault.CLOSE, Fault.CANCEL_CLOSE]
 FAMILIES = [
     Family('one_op', fam_kernel,
            quick=dict(names=OPS, fault_kinds=ALLF, nops=1, pmax=2),
            thorough=dict(names=OPS, fault_kinds=ALLF, nops=1, pmax=3),
-           reach=OPS + ['none', 'cancel', 'interrupt', 'close'],
+           reach=OPS + ['none', 'cancel', 'interrupt', 'close', 'cancel+close'],
            bounds='one op, all attackers'),
     Family('two_ops', fam_kernel,
            thorough=dict(names=[o for o in OPS if o not in ('eternity', 'raise')],
